@@ -274,6 +274,14 @@ func isHelper(f *ssa.Function) bool {
 	if nil == f || nil != f.Parent() || nil == f.Blocks {
 		return false
 	}
+	if o := f.Origin(); nil != o && o != f && nil != o.Pkg && strings.HasPrefix(f.Synthetic, "instance of") {
+		/* An instance of a generic helper of the module. */
+		if !strings.HasPrefix(o.Pkg.Pkg.Path(), ModPath) {
+			return false
+		}
+		_, isRef := refInfo[o.String()]
+		return !isRef
+	}
 	if nil == f.Pkg || "" != f.Synthetic {
 		return false
 	}
